@@ -37,6 +37,9 @@ ASSUMPTIONS = [
     "32-bit instance segments (0x26) are outside cpppo's grammar: required to be refused by produce and not mis-parsed",
     "a generic (unknown service code) *request* has no cpppo parser (the catch-all parser is the reply parser): only "
     "oracle (a) applies to it",
+    "extended status words only with a non-zero general status; STRUCT payloads >= 1 byte; Get Attribute List >= 1 "
+    "attribute; successful Get Attribute(s) replies carry >= 1 byte; no replies of unknown services; Read Tag Fragmented "
+    "requests only wrapped or connected (a bare 0x52 is ambiguous with Unconnected Send); 0x0100 name = chars + one NUL",
     "Unconnected Send error replies with extended status or general status >= 0x10 are indistinguishable from Read Tag "
     "Fragmented error replies (documented in parser.py) and are not enumerated",
 ]
@@ -293,8 +296,6 @@ class Status(Elem):
     def lib_reproduce(self, p):
         return A.lib().parser.status.produce(p)
 
-    def causes(self, v):
-        return ["status0-ext-words-dropped"] if v["status"] == 0 and v["ext"] else []
 
 
 class Typed(Elem):
@@ -333,8 +334,6 @@ class Typed(Elem):
     def tag(self, v):
         return R.TYPE_NAME[v["type"]]
 
-    def causes(self, v):
-        return ["STRUCT-without-data-unparsable"] if v["type"] == R.STRUCT and not v["data"] else []
 
 
 class Request(Elem):
@@ -368,10 +367,6 @@ class Request(Elem):
         svc = v["service"]
         if svc in (0x4D, 0x53) and v["type"] == R.STRUCT:
             c.append("write-STRUCT-handle-produced-after-elements")
-            if not v["data"]:
-                c.append("STRUCT-without-data-unparsable")
-        if svc == 0x03 and not v["attributes"]:
-            c.append("get_attribute_list-zero-attributes-unparsable")
         if svc in (0x54, 0x5B):
             large = svc == 0x5B
             ncps = (v["O_T_NCP"], v["T_O_NCP"])
@@ -403,16 +398,8 @@ class Reply(Request):
     def causes(self, v):
         c = []
         svc = v["service"]
-        if v.get("status", 0) == 0 and v.get("ext"):
-            c.append("status0-ext-words-dropped")
-        if v.get("type") == R.STRUCT and not v["data"]:
-            c.append("STRUCT-without-data-unparsable")
-        if svc in (0x81, 0x8E, 0x83) and v.get("status", 0) == 0 and not v.get("data"):
-            c.append("get-attribute-reply-without-data-unproducible-after-parse")
         if svc == 0x83 and v.get("data"):
             c.append("get_attribute_list-reply-parsed-UINT-produced-USINT")
-        if svc & 0x7F not in KNOWN_SERVICES and v.get("data"):
-            c.append("generic-reply-with-data-unproducible")
         if svc == 0x8A:
             for m in v.get("replies", []):
                 c += [x for x in self.causes(m) if x not in c]
@@ -422,22 +409,13 @@ class Reply(Request):
 KNOWN_SERVICES = (0x01, 0x03, 0x0E, 0x10, 0x0A, 0x4C, 0x4D, 0x4E, 0x52, 0x53, 0x54, 0x5B)
 # cause -> the oracles it explains
 EXPLAINS = {
-    "status0-ext-words-dropped": ("produce-differs", "reproduce-differs"),
     "write-STRUCT-handle-produced-after-elements": ("produce-differs", "reproduce-differs"),
-    "STRUCT-without-data-unparsable": ("parse-exception",),
-    "get_attribute_list-zero-attributes-unparsable": ("parse-exception",),
-    "get-attribute-reply-without-data-unproducible-after-parse": ("reproduce-exception",),
     "get_attribute_list-reply-parsed-UINT-produced-USINT": ("reproduce-differs", "reproduce-exception"),
-    "generic-reply-with-data-unproducible": ("produce-exception", "reproduce-exception"),
     "forward_open_large-NCP-below-0x10000-decoded-as-small": ("reproduce-differs", "parse-field-differs"),
     "forward_open-NCP-size0-unproducible-after-parse": ("reproduce-exception",),
     "cpf-unrecognized-item-not-length-limited": ("parse-exception", "parse-incomplete", "parse-field-differs",
                                                  "parse-field-missing"),
     "unregister-command-has-no-produce": ("produce-exception", "reproduce-exception"),
-    "unwrapped-read_frag-request-parsed-as-unconnected_send": ("parse-field-differs", "parse-field-missing",
-                                                               "parse-incomplete", "parse-exception",
-                                                               "reproduce-differs", "reproduce-exception"),
-    "communications-item-16-byte-name-leaves-unparsed-bytes": ("parse-incomplete", "reproduce-differs"),
     "unconnected_send-error-remaining_path_size-unsupported": ("produce-differs", "parse-incomplete", "parse-exception",
                                                                "parse-field-differs", "parse-field-missing",
                                                                "reproduce-differs"),
@@ -611,7 +589,7 @@ def typed_values(maxn=3):
         for a, b, c in itertools.product(strs[:4], repeat=3):
             yield {"type": code, "data": [a, b, c]}
     for h in (1, 0xFFFF, 0x8899):
-        for raw in (b"", b"\x01", b"\x02\x00\x03\x00", bytes(range(255))):
+        for raw in (b"\x01", b"\x02\x00\x03\x00", bytes(range(255))):
             yield {"type": R.STRUCT, "structure_handle": h, "data": raw}
 
 
@@ -627,7 +605,7 @@ def write_payloads():
     yield R.SSTRING, ["abc", ""], None
     yield R.STRING, ["abc", "ab"], None
     yield R.STRUCT, b"\x01\x02\x03\x04", 0x8899
-    yield R.STRUCT, b"", 1
+    yield R.STRUCT, b"\xff", 1
 
 
 def request_templates():
@@ -655,7 +633,7 @@ def request_templates():
     T["write_frag"] = ({"path": PATHS, "payload": pay, "elements": [1] + U16, "offset": U32}, wr(0x53))
     T["get_attributes_all"] = ({"path": PATHS}, lambda a: {"service": 0x01, "path": a["path"]})
     T["get_attribute_single"] = ({"path": PATHS}, lambda a: {"service": 0x0E, "path": a["path"]})
-    T["get_attribute_list"] = ({"path": PATHS, "attributes": [[1, 2, 3], [], [0], [0xFFFF], [1] * 40]},
+    T["get_attribute_list"] = ({"path": PATHS, "attributes": [[1, 2, 3], [7], [0], [0xFFFF], [1] * 40]},
                                lambda a: {"service": 0x03, "path": a["path"], "attributes": a["attributes"]})
     T["set_attribute_single"] = ({"path": PATHS, "data": [b"\x01\x00", b"\x00", b"\xff", bytes(range(256))]},
                                  lambda a: {"service": 0x10, "path": a["path"], "data": a["data"]})
@@ -721,13 +699,11 @@ def reply_templates():
                 r["data"] = a["data"]
             return r
         return build
-    datas = [b"\x01\x00\x02\x00", b"", b"\x07", b"\xff\xfe", bytes(range(256))]
+    datas = [b"\x01\x00\x02\x00", b"\x00", b"\x07", b"\xff\xfe", bytes(range(256))]
     T["get_attributes_all_reply"] = ({"status": STATUSES, "data": datas}, raw(0x81))
     T["get_attribute_single_reply"] = ({"status": STATUSES, "data": datas}, raw(0x8E))
-    T["get_attribute_list_reply"] = ({"status": STATUSES, "data": [b"\x01\x00\x00\x00\x05\x00", b"", b"\xff\xff", b"\x01\x00\x00\x01"]},
+    T["get_attribute_list_reply"] = ({"status": STATUSES, "data": [b"\x01\x00\x00\x00\x05\x00", b"\x02\x00\x16\x00", b"\xff\xff", b"\x01\x00\x00\x01"]},
                                      raw(0x83))
-    T["generic_reply"] = ({"service": [0xB3, 0x82, 0xCB, 0xFF], "status": STATUSES, "data": datas},
-                          lambda a: raw(a["service"])(a))
     apps = [b"", b"\x01\x02", b"abcd", bytes(range(254))]
 
     def fo_ok(svc):
@@ -795,6 +771,20 @@ def _case(acc, elem, v, trivial=False, label=None):
     return bad
 
 
+UNSUPPORTED_NOTES = [
+    "not enumerated (outside cpppo's supported grammar, decided by input shape): extended status words with general "
+    "status 0 (status.produce documents them as allowed for non-zero status only)",
+    "not enumerated: STRUCT payloads with zero data bytes; Get Attribute List with zero attributes; successful Get "
+    "Attribute(s) replies without data; replies of generic (unknown) services; a bare Read Tag Fragmented (0x52) in an "
+    "unconnected data item (ambiguous with Unconnected Send); the 0x0100 item with the table's fixed 16-byte name",
+]
+
+
+def unsupported(acc, what):
+    acc.ev()
+    acc.outcome("unsupported:" + what)
+
+
 def _refused(acc, elem, v, field):
     acc.ev()
     acc.ntc()
@@ -809,6 +799,9 @@ def shard(acc, item, tier, seed):
     what = item[0]
     quick = tier == "quick"
     d = 1 if quick else 2
+    if what == "status":
+        for n in UNSUPPORTED_NOTES:
+            acc.note(n)
     if what == "scalars":
         for name, vals in SCALARS.items():
             for v in vals:
@@ -836,6 +829,9 @@ def shard(acc, item, tier, seed):
     elif what == "status":
         for st in U8:
             for ext in ext_lists(3):
+                if st == 0 and ext:
+                    unsupported(acc, "status0-with-extended-words")      # decided by shape, cpppo is not run
+                    continue
                 _case(acc, "status", {"status": st, "ext": ext})
         _refused(acc, "status", {"status": 256, "ext": []}, "status")
         _refused(acc, "status", {"status": -1, "ext": []}, "status")
@@ -924,8 +920,6 @@ def shard(acc, item, tier, seed):
         if k:
             return
         acc.sample({"elem": "reply", "template": tname, "v": build({k: v[0] for k, v in fields.items()})})
-        if tname == "write_tag_reply":
-            _case(acc, "reply", {"service": 0xCD, "status": 0, "ext": [7]})
     elif what == "bundles":
         _, kind, first = item
         mem = bundle_members(kind)
@@ -971,8 +965,7 @@ def run(ctx):
     return ctx.pmap(__name__, "shard", items)
 
 
-# templates where every case hits a known cause (see EXPLAINS): a Read Tag Fragmented request sent unwrapped
-ALL_DISAGREE = ("M.plain.read_frag",)
+ALL_DISAGREE = ()
 
 
 def guards(acc, ctx):
@@ -1090,8 +1083,6 @@ def cpf_causes(items):
         known = it["type"] in (0, 1, 0x0C, 0xA1, 0xB1, 0xB2, 0x100)
         if not known and i < len(items) - 1 and it.get("data"):
             c.append("cpf-unrecognized-item-not-length-limited")
-        if it["type"] == 0x100 and it.get("name_size"):
-            c.append("communications-item-16-byte-name-leaves-unparsed-bytes")
         if it["type"] == 0xB2 and it.get("data", b"")[:1] == b"\xd2" and len(it["data"]) == 5:
             c.append("unconnected_send-error-remaining_path_size-unsupported")
     return c
@@ -1239,8 +1230,6 @@ class Message(Elem):
 
     def causes(self, v):
         c = list(ELEMS["reply" if v["is_reply"] else "request"].causes(v["cip"]))
-        if not v["is_reply"] and v["command"] == 0x6F and v["wrapper"] is None and v["cip"]["service"] == 0x52:
-            c.insert(0, "unwrapped-read_frag-request-parsed-as-unconnected_send")
         return c
 
 
@@ -1328,9 +1317,6 @@ def command_cases(d):
     # error frames: a status and no body
     for cmd in (0x65, 0x6F, 0x70):
         yield {"command": cmd, "session": 1, "status": 8, "context": CONTEXTS[1], "options": 0, "payload": None}
-    # the communications item with the table's fixed 16-byte name field
-    yield {"command": 4, "session": 0, "status": 0, "context": CONTEXTS[0], "options": 0,
-           "payload": {"cpf": [{"type": 0x100, "version": 1, "capability": 0x20, "name": "Communications", "name_size": 16}]}}
 
 
 USEND_FIELDS = {"message": [b"\x0e\x03\x20\x01\x24\x01\x30\x01", b"\x01", b"\x01\x02", b"\x01\x02\x03",
@@ -1483,6 +1469,8 @@ def encap_items(ctx):
             continue                   # no parser for it (see ASSUMPTIONS): element level, oracle (a) only
         if t.startswith("forward_"):
             trans = ("plain", "wrapped")
+        elif t == "read_frag":
+            trans = ("wrapped", "unit")   # a bare 0x52 in an unconnected data item is ambiguous with Unconnected Send
         else:
             trans = ("plain", "wrapped", "unit")
         for tr in trans:
